@@ -235,7 +235,9 @@ static void cond_waiter(caller_t *c)
     g_cs.returned++;
     if (r == ABT_SUCCESS)
         g_cs.success++;
-    abtv_point();
+    /* stay inside for a moment: nobody else may get the mutex now */
+    for (int k = 0; k < 4; k++)
+        abtv_point();
     __sync_sub_and_fetch(&g_holders, 1);
     EV("\"e\":\"Rel\",\"t\":%d", c->id);
     CHK(ABT_mutex_unlock(g_m));
@@ -322,7 +324,8 @@ static void scn_cond(int timed_mode)
     g_holders = 0;
     g_t0 = abtv_now_ns();
     abtv_clock_tick_ns(1000);
-    if (rnd(4) == 0) {
+    int recursive = rnd(4) == 0;
+    if (recursive) {
         /* a recursive mutex, locked once by each waiter */
         ABT_mutex_attr ma;
         CHK(ABT_mutex_attr_create(&ma));
@@ -357,7 +360,7 @@ static void scn_cond(int timed_mode)
     s->body = cond_signaller;
     s->x[0] = rnd(2);
     s->x[1] = (timed_mode && rnd(2)) ? 300 + rnd(200) : 0;
-    s->x[2] = rnd(3) == 0;
+    s->x[2] = recursive || rnd(3) == 0;
     EV("\"e\":\"Cond\",\"nw\":%d,\"timed\":%d,\"hold\":%d", nw, timed_mode, s->x[1]);
     callers_launch(32768);
     callers_join();
